@@ -104,7 +104,9 @@ pub struct MclmcStats<P: HasDims, H: Storable<P>, A: Storable<P>, Pt: Storable<P
     /// full size. The `−energy_change` term corrects for integration error.
     /// See Robnik & Seljak (2023), arXiv:2212.08549.
     pub log_weight: f64,
-    pub tuning: bool,
+    // `tuning` is reported by the (flattened) adaptation statistics below; a second
+    // field of the same name here would make every name-keyed storage backend record
+    // the value twice per draw.
     #[storable(flatten)]
     pub hamiltonian: H,
     #[storable(flatten)]
@@ -440,7 +442,6 @@ where
             num_steps: info.num_steps,
             energy_change: info.energy_change,
             log_weight: info.energy_change,
-            tuning: self.adapt.is_tuning(),
             hamiltonian: hamiltonian_stats,
             adapt: adapt_stats,
             point: point_stats,
